@@ -49,10 +49,10 @@ CHECKS['C08'] = dict(
    text="Session.tla models the only state that survives a call (the caller's 'text' entry, the caller's cache dict with the table "
         "it was built from and units written into cached tokens, per-call objects reachable from module state) with one action per "
         "step of markup.parse()/stylesheet.parse(). TLC checks CallerConfigStable, ResultPure and NoRetention for every history up to "
-        "the bound over 76 call kinds (14 caller objects incl. shared Config instances and shared cache dicts, succeeding and failing "
-        "calls) and proves each invariant non-vacuous by switching on the six named as-is deviations. Every history is executed "
+        "the bound over 150 call kinds (21 caller objects incl. shared Config instances, cache dicts shared by stylesheet and by markup callers, "
+        "scope contexts, dict-valued options, an empty text; succeeding and failing calls, the empty abbreviation) and proves each invariant non-vacuous by switching on the eight named as-is deviations. Every history is executed "
         "against the real expand(); after each call the state of every caller object, equality with the same call's result in a fresh "
-        "interpreter and a gc census of live library objects are logged, and Trace_Session.tla validates the log by performing the call "
+        "interpreter, a gc census of live library objects and a structural comparison of every module-level table of the library with its import-time value are logged, and Trace_Session.tla validates the log by performing the call "
         "with Session's own actions.",
    note="Bounded histories (all histories of 2 calls executed; thorough: all histories of 3 calls model-checked and a sample of 90 000 executed; simulated beyond). Census relies on CPython gc; objects held by "
         "a caller-supplied cache are not retention. Fresh results: one new interpreter per call kind.",
@@ -175,12 +175,12 @@ CHECKS['C09'] = dict(
         "script with markup-like bodies, script with a non-special type, text with a stray '>') in HTML and in XML mode while "
         "recording the ground truth (element ranges, depth, parent, attribute offsets, expected scan events). TLC checks, at every "
         "position of every complete document, that the code's stack machines for match / balanced_outward / balanced_inward (early "
-        "exit, first-child chain) equal the stack-free contract on the truth table, and that the truth slices to the tags. Every "
+        "exit, first-child chain) equal the stack-free contract on the truth table, that the truth slices to the tags, and (ScanInv / AttrInv) that HtmlScan.tla - scan() and attributes() transcribed character by character - reads the document back to exactly the recorded events and attribute table. Every "
         "document is then given to the real scan / match / balanced_outward / balanced_inward at every position; names, open / close "
         "ranges and attribute name / value ranges and slices must equal the truth.",
    note="Well-nested documents with fixed segment texts (malformed input: C16). Exhaustive to 3-4 segments quick / 5 thorough, "
         "simulated to 25 segments and depth 6.",
-   technique="TLA+ machines = contract at every position (TLC) + spec->code replay of every document and position",
+   technique="TLA+ machines = contract at every position, scanner transcription = generator truth (TLC) + spec->code replay of every document and position",
    ref="5/C09")
 
 CHECKS['C10'] = dict(
@@ -188,8 +188,8 @@ CHECKS['C10'] = dict(
         "selector with a brace in a string, at-rule with a parenthesised colon; declarations with custom property / SCSS variable "
         "names and values containing ; { } : in strings, url(a:b), nested parentheses; tight and loose punctuation; comments with "
         "delimiters; several top-level rules; nesting) with its ground truth and expected scan events. TLC checks at every position "
-        "that the code's stack / pending-property machines for match() and balanced_outward() equal the stack-free contract and that "
-        "the truth slices to the delimiters; the contract for balanced_inward (first node in closing order, chain of first children) "
+        "that the code's stack / pending-property machines for match() and balanced_outward() equal the stack-free contract, that "
+        "the truth slices to the delimiters, and (ScanInv) that CssScan.tla - the scanner's ScanState machine transcribed - reads the stylesheet back to the recorded events; the contract for balanced_inward (first node in closing order, chain of first children) "
         "is computed per position as well. The real scan / match / balanced_outward / balanced_inward are called at every position.",
    note="Semicolon-terminated declarations (as quantified); inward is not judged between a value's end and its semicolon's end; "
         "a ';' inside parentheses is known finding F16 (generated in one small instance, matched by a flag the spec computes).",
@@ -207,10 +207,10 @@ CHECKS['C16'] = dict(
         "exception is one event of a trace validated by Trace_ScanMonitor.tla: no call raises; every range satisfies 0 <= start <= end "
         "<= len; HTML tags start with '<', end with '>', carry their name right after '<' or '</', come in increasing non-overlapping "
         "order; match equals the first entry of balanced_outward; outward entries strictly contain each other and the position; inward "
-        "entries lie inside each other; css delimiters lie in -1..len-1.",
+        "entries lie inside each other; css delimiters lie in -1..len-1. Second layer: HtmlScanMC.tla / CssScanMC.tla run the transcribed scanners (HtmlScan.tla, CssScan.tla) and the three matcher functions as callback machines over every string of up to N fragments; TLC checks the same clauses on the model (ScanRanges, ScanShape, ScanOrder, AttrRanges, MatchIsFirstOutward, OutwardNested, InwardNested; ScanRanges, SplitRanges, ResultRanges) and the events, attributes / value split and answers at every position are compared with the code (diagnostic).",
    note="The specification is the acceptance monitor of the property plus the exhaustive input generator (length 3 quick / 4 thorough, "
         "12 simulated). A trace is judged up to its first rejected event.",
-   technique="TLA+ input enumeration (TLC) + code->spec trace validation of every scanner/matcher result",
+   technique="TLA+ input enumeration + scanner / matcher transcription with the property as invariants (TLC) + code->spec trace validation of every scanner/matcher result",
    ref="5/C16")
 
 CHECKS['C17'] = dict(
@@ -271,7 +271,7 @@ CHECKS['C12'] = dict(
         "under every row. (b) Every output is turned into a trace of line / open / close / self-close / text / comment events and "
         "validated by Trace_Format.tla, whose state is the stack of open elements with the indentation of their opening line: every "
         "line after the first starts with baseIndent plus one unit per open element, a closing tag on its own line is aligned with "
-        "its opening tag's line, a comment is adjacent to an element carrying a trigger attribute.",
+        "its opening tag's line, a comment is adjacent to an element carrying a trigger attribute. (c) AbbrGrammar.tla + AbbrPrint.tla: the HTML formatter with formatting on (should_format, get_indent, push_snippet) is transcribed; TLC checks the indentation and alignment clauses on the model's own output, read back by HtmlScan.tla (LayoutInv), for every abbreviation of the documented grammar over a fragment set; the real output must carry the same content and goes through the monitor; its bytes are compared with the model's (diagnostic).",
    note="Indentation clauses are judged for rows with format on and no generated name in formatSkip. Known findings F19 (multi-line "
         "text + children) and F27 (forced inner break on a leaf whose open tag is inside a line) are matched by clause + flags "
         "computed from the input. Bounded generator; trace judged up to the first rejected event.",
